@@ -9,7 +9,8 @@ cd $S && git checkout -q -- . && git clean -fdq
 cp "$OUT/$DEMO" "$S/$DST"
 echo "--- demo without the change (expect PASS)"
 go1.26.8 test -vet=off -count=1 -run "$RUN" $PKG 2>&1 | tail -3
-git apply "$OUT/patch.diff" || { echo "patch does not apply"; exit 1; }
+P="$OUT/patch.diff"; [ -f "$OUT/patch_ported_to_repaired_tree.diff" ] && P="$OUT/patch_ported_to_repaired_tree.diff"
+git apply "$P" || { echo "patch does not apply"; exit 1; }
 echo "--- build with the change"
 go1.26.8 build ./... && echo build ok
 echo "--- demo with the change (expect FAIL)"
